@@ -284,11 +284,17 @@ def install(m):
     m.quiet["(*sync.RWMutex).RLock"] = rlock_quiet
 
     def once_quiet(m, alt, args):
+        # Do on a Once that has certainly completed is a no-op that commutes with everything: no scheduling point
         p = args[0]
         if type(p) is not Ptr:
             return False
         st = m.load(alt, p)
-        return type(st) is int and st == 2
+        if type(st) is int:
+            return st == 2
+        done = m.bool_of(lift1(st, lambda x: x == 2)) if type(st) is Union else None
+        if done is None:
+            return False
+        return not m.feasible(alt.guard, NOT(done))
     m.quiet["(*sync.Once).Do"] = once_quiet
 
     # ------------------------------------------------------------------ sync.WaitGroup
